@@ -46,7 +46,8 @@ def runReqs (lc : LifeCycle) : String → List String → String × List Bool
 /-- `LifeCycle.add_phase` / `_validate`: phase names unique, state names unique inside the phase
 and across the lifecycle. Returns `none` when the real code raises `LifeCycleError`. -/
 def addPhase (lc : LifeCycle) (p : Phase) : Option LifeCycle :=
-  if lc.any (·.name == p.name) then none
+  if p.states.isEmpty then none            -- `LifeCyclePhase.__init__` indexes `states[0]`: IndexError, nothing registered
+  else if lc.any (·.name == p.name) then none
   else if ¬ p.states.Nodup then none
   else if p.states.any (fun s => (allStates lc).contains s) then none
   else some (lc ++ [p])
